@@ -74,7 +74,8 @@ PROPS['C08'] = {
     'level_note': 'relative to the assumed (not yet verified) contracts of ReinitIndexes, Edges, CompareTipIndexes, EdgeIndex.Value/PutEdgeValue, the channel message invariant (a message is a tree or an error), and: "number of branches found" = "number of shared splits" needs distinct branches of one tree to have distinct splits (unrooted, no degree-2 node: the statement\'s quantifier)',
     'packages': ALLPK,
     'functions': [('tree.Compare$1', {'match': [r'^send\.stats\.(identical|no_specific|counts|record)', r'^callsite', r'^inv\..*L2', r'^nil', r'^bounds', r'^pre', r'^typeassert']}),
-                  ('tree.CompareWeighted$1', {'match': [r'^send\.stats\.(identical|record)', r'^callsite', r'^inv\..*L[234]', r'^nil', r'^bounds', r'^pre', r'^typeassert']})],
+                  ('tree.CompareWeighted$1', {'match': [r'^send\.stats\.(identical|record)', r'^callsite', r'^inv\..*L[234]', r'^nil', r'^bounds', r'^pre', r'^typeassert']}),
+                  '(*tree.Tree).CompareTipIndexes'],
     'trusted_base': TB_COMMON,
     'assumptions': A_COMMON,
     'not_decided': ['Common == |S1 n S2| as a set identity (needs the split-class abstraction of the index: C04 stretch)', 'symmetry under swapping the trees and independence of rooting (corollaries of the set formulation)', 'cmd/comparetrees.go RF/KF arithmetic'],
@@ -109,7 +110,7 @@ PROPS['C10'] = {
                   ('support.FBP', {'match': [r'^step', r'^inv', r'^bounds', r'^nil', r'^nilchan']}),
                   ('support.TBE', {'match': [r'^callsite']}),
                   'support.NormalizeTransferDistancesByDepth',
-                  '(*tree.Edge).HashCode'],
+                  '(*tree.Edge).HashCode', '(*tree.Tree).CompareTipIndexes'],
     'trusted_base': TB_COMMON,
     'assumptions': A_COMMON,
     'not_decided': ['transfer distance = minimum Hamming distance (minTransferDistRecur)', 'TBE >= FBP and range lemmas', 'order independence of floating-point sums (A-FP)'],
